@@ -195,6 +195,24 @@ def check(ctx):
             extra.append("module m; int a, b, i; always_comb begin i = 1; a%s%s; end endmodule\n" % (op, rhs))
             if op not in ("<=",):
                 extra.append("module m; int a, b, i; initial for (i = 0; i < 4; a%s%s) b = 1; endmodule\n" % (op, rhs))
+    # delays (A.2.2.3) of every shape -- a value, one to three expressions, min:typ:max, parentheses nested inside -- in every
+    # place a delay can stand: nets with and without a data type, continuous assignments, gates, statements
+    DELAYS = ["#1", "#1.5", "#D", "#(1)", "#(1, 2)", "#(1, 2, 3)", "#(1:2:3)", "#(1:2:3, 4:5:6)", "#((1+2), 3)", "#(1:(2):3)", "#((D)*2)",
+              "#($clog2(8))", "#(f(1, 2), (3))", "#((((1))))"]
+    def arity(d):
+        depth, n = 0, 1
+        for ch in d:
+            depth += ch == "("
+            depth -= ch == ")"
+            n += ch == "," and depth == 1
+        return n
+    for d in DELAYS:
+        # delay3 for nets and continuous assignments, delay2 for an and-gate, one mintypmax expression in a delay control
+        extra += [t for t, most in [
+                  ("module m; parameter D = 1; wire %s w; endmodule\n" % d, 3), ("module m; parameter D = 1; wire logic [3:0] %s v = 4'd1, u; endmodule\n" % d, 3),
+                  ("module m; parameter D = 1; tri1 [1:0] %s x, y; endmodule\n" % d, 3), ("module m; parameter D = 1; wire a, b; assign %s a = b; endmodule\n" % d, 3),
+                  ("module m; parameter D = 1; wire a, b; and %s g(a, b, b); endmodule\n" % d, 2), ("module m; parameter D = 1; reg r; initial %s r = 1; endmodule\n" % d, 1),
+                  ("module m; parameter D = 1; reg r; always @(r) r <= %s 1; endmodule\n" % d, 1)] if arity(d) <= most]
     xc = [Case("x%d" % i).add("want", "tree", "text").add("run", "parse_sv_str", hx(t), hx("t.sv")) for i, t in enumerate(extra)]
     ximpl = run_harness("api", xc, "c02x", timeout=600)
     badx = None
